@@ -493,38 +493,54 @@ var baseResponses = []string{
 	"* ID NIL\r\n",
 }
 
-// bytes tried at every position in the quick tier: one per comparison in the decoder / parsers
+// bytes tried at every position: one per comparison in the decoder / parsers
 var quickBytes = []byte{0, '\r', '\n', ' ', '"', '\\', '(', ')', '[', ']', '{', '}', '*', '%', '+', '~', '$', '0', '1', '9', ':', ',', '.', '<', '>', 'A', 'a', 'N', '-', '=', '?', '&', 0x7f, 0x80, 0xff}
 
-func byteMutations(s string, all bool, emit func(m []byte)) {
+// quick tier: replacements / insertions
+var quickReplace = []byte{0, '\r', '\n', ' ', '"', '\\', '(', ')', '[', ']', '{', '}', '*', '+', '~', '$', '0', '1', '9', ':', ',', '.', '<', 'A', 'N', '-', 0x80}
+var quickInsert = []byte{' ', '\r', '(', ')', '"', '{', '0', '-', 'A'}
+
+func isQuickByte(v byte) bool {
+	for _, q := range quickBytes {
+		if q == v {
+			return true
+		}
+	}
+	return false
+}
+
+// byteMutations: emit(m, structural) — structural is false for replacement values that are not
+// one of the bytes the parsers compare against (those run under the two basic variants only).
+func byteMutations(s string, thorough bool, emit func(m []byte, structural bool)) {
 	b := []byte(s)
 	// truncations
 	for i := 0; i < len(b); i++ {
-		emit(b[:i])
+		emit(b[:i], true)
 	}
-	vals := quickBytes
-	if all {
-		vals = make([]byte, 256)
-		for i := range vals {
-			vals[i] = byte(i)
+	repl, ins := quickReplace, quickInsert
+	if thorough {
+		repl = make([]byte, 256)
+		for i := range repl {
+			repl[i] = byte(i)
 		}
+		ins = quickBytes
 	}
 	buf := make([]byte, 0, len(b)+1)
 	for i := 0; i < len(b); i++ {
 		// deletion
 		buf = append(append(buf[:0], b[:i]...), b[i+1:]...)
-		emit(buf)
-		for _, v := range vals {
+		emit(buf, true)
+		for _, v := range repl {
 			if v != b[i] {
 				buf = append(buf[:0], b...)
 				buf[i] = v
-				emit(buf)
+				emit(buf, isQuickByte(v))
 			}
 		}
 		// insertion before position i
-		for _, v := range quickBytes {
+		for _, v := range ins {
 			buf = append(append(append(buf[:0], b[:i]...), v), b[i:]...)
-			emit(buf)
+			emit(buf, true)
 		}
 	}
 }
